@@ -57,6 +57,34 @@ def exG : Hdr :=
   { kind := .nestedDef, name := "g".toList, line := 0, param := none, cached := true, buffered := true,
     filtered := false, attrs := [] }
 
+/-! an inheritance chain: `/base.html` declares a cached def `side`; `/c1.html` and `/c2.html` inherit from it, declare
+a cached def `side` of their own and call both (`${side()}`, `${parent.side()}`).  The call tree of a child is the base's
+body with the child's body in the place of `${next.body()}`; every header names its declaring template. -/
+
+def exHome (tid : Nat) (uri : String) : Home := { tid := tid, uri := uri.toList, cacheArgs := [], pageAttrs := [] }
+
+def exSide (tid : Nat) (uri : String) : Hdr :=
+  { kind := .topDef, name := "side".toList, line := 0, param := none, cached := true, buffered := false,
+    filtered := false, attrs := [], home := some (exHome tid uri) }
+
+def exSideBody (txt : String) : Items := .tick ("side of " ++ txt).toList (.text txt.toList .nil)
+
+def exChild (tid : Nat) (uri txt : String) : Tmpl :=
+  { uri := uri.toList, cacheArgs := [], enabled0 := true
+    page := { exPage false with home := some (exHome 0 "/base.html") }
+    body := .text "[".toList
+      (.inv (exSide 0 "/base.html") none .plain (exSideBody "B")            -- the base's own `${side()}`
+      (.inv { exPage false with home := some (exHome tid uri) } none .plain  -- `${next.body()}`: the child's body
+        (.inv (exSide tid uri) none .plain (exSideBody txt)                  --   `${side()}`
+        (.inv (exSide 0 "/base.html") none .plain (exSideBody "B") .nil))    --   `${parent.side()}`
+      (.text "]".toList .nil))) }
+
+def exWInherit : World Unit :=
+  { be := exBe
+    tmpls := [{ uri := "/base.html".toList, cacheArgs := [], enabled0 := true,
+                page := { exPage false with home := some (exHome 0 "/base.html") }, body := .nil },
+              exChild 1 "/c1.html" "C1", exChild 2 "/c2.html" "C2"] }
+
 /-- the keyword arguments of the `get_or_create` calls for key `k` in a trace, oldest first -/
 def gocArgs {R : Type} (tr : List (Ev R)) (k : Str) : List Kw :=
   tr.reverse.filterMap fun
